@@ -249,7 +249,7 @@ theorem step_record (s : SeqState) (op : Op) (hok : (stepRaw s op).err = none) (
                 repeat' split
                 all_goals first
                   | exact ha
-                  | exact Meta.trans ha (kc_targetCore _ _ _)) hok
+                  | exact kc_orRollback (Meta.trans ha (kc_targetCore _ _ _))) hok
               exact ⟨h1, h2, h3, by first | rfl | trivial⟩
   | enableEom n e =>
     right
